@@ -1,5 +1,4 @@
 import Gaftools.Props.C15Hist
-import Gaftools.Props.TieA
 import Gaftools.Props.C15Bicc
 import Gaftools.Props.C15Bicc2
 #print axioms Gaftools.C15.findComp_exact
@@ -11,7 +10,6 @@ import Gaftools.Props.C15Bicc2
 #print axioms Gaftools.C15.history_eq_build
 #print axioms Gaftools.C15.history_symmetric
 #print axioms Gaftools.C15.history_no_dangling
-#print axioms Gaftools.TieA.eDir_gen_eq_model
 #print axioms Gaftools.C15.bgo_terminates
 #print axioms Gaftools.C15.bgo_visits_all
 #print axioms Gaftools.C15.bgo_wellformed
